@@ -10,6 +10,7 @@ CONSTANTS
   InitAuth = {"a1", "a2", "a3"}
   MinBurn = 2
   MinMint = 2
+  MinVals <- Mins3
   MaxFee = 1
   MintAmts = {1, 3}
   PctMilli = 700
@@ -27,6 +28,7 @@ CONSTANTS
   GBurns <- AllBurns
   GMints <- OneMint
   GAuthOps <- NoOps
+  GCfgs <- ApartCfgs2
 VIEW GView
 INVARIANT GPrint
 CHECK_DEADLOCK FALSE
